@@ -1427,7 +1427,6 @@ func (x *Exec) logTopBefore(st *State) string {
 	return x.top0
 }
 
-
 func isCancelFunc(t types.Type) bool {
 	n, ok := t.(*types.Named)
 	return ok && n.Obj().Pkg() != nil && n.Obj().Pkg().Path() == "context" && n.Obj().Name() == "CancelFunc"
